@@ -123,4 +123,344 @@ theorem keep_of_foot_spec' {α : Type} {x : M α} {R : α → Prop} (cfg : Cfg)
   have := adequacy (hx w) w (Foot.refl _ w)
   split <;> simp_all <;> (rw [← hw]; first | exact keep_of_foot cfg _ _ this | exact keep_of_foot cfg _ _ this.2)
 
+/-- "the snapshot `g` is kept" on both exits -/
+abbrev kept (cfg : Cfg) (g : Snap) : PostCond α (.except Exn (.arg World .pure)) :=
+  post⟨fun _ w => ⌜Keep g (snap cfg w)⌝, fun _ w => ⌜Keep g (snap cfg w)⌝⟩
+
+/-! ### leaf procedures keep the snapshot -/
+section leaves
+variable (g : Snap) (cfg : Cfg) (tl : Bool)
+
+theorem emit_k (ev : Event) (a s : Nat) (k : Option EClass) (e : Option Exn) (st : Option StopReason)
+    (c : Option Cause) (cl : Option Classification) :
+    ⦃fun w => ⌜snap cfg w = g⌝⦄ emit cfg tl ev a s k e st c cl ⦃kept cfg g⦄ :=
+  keep_of_foot_spec cfg (fun w0 => emit_foot inertK w0 rfl rfl cfg tl ev a s k e st c cl) g
+
+theorem setStop_k (s : StopReason) : ⦃fun w => ⌜snap cfg w = g⌝⦄ setStop s ⦃kept cfg g⦄ :=
+  keep_of_foot_spec cfg (fun w0 => setStop_foot inertK w0 s) g
+
+theorem checkAbort_k (a : Nat) : ⦃fun w => ⌜snap cfg w = g⌝⦄ checkAbort cfg tl a ⦃kept cfg g⦄ :=
+  keep_of_foot_spec cfg (fun w0 => checkAbort_foot inertK w0 rfl rfl rfl cfg tl a) g
+
+theorem stopWith_k (s : StopReason) (ev : Event) (a : Nat) (k : EClass) (e : Option Exn) (c : Cause) :
+    ⦃fun w => ⌜snap cfg w = g⌝⦄ stopWith cfg tl s ev a k e c
+    ⦃post⟨fun d w => ⌜d = .raise ∧ Keep g (snap cfg w)⌝, fun _ w => ⌜Keep g (snap cfg w)⌝⟩⦄ :=
+  keep_of_foot_spec' cfg (fun w0 => stopWith_foot inertK w0 rfl rfl cfg tl s ev a k e c) g
+
+theorem recordStrategySuccess_k : ⦃fun w => ⌜snap cfg w = g⌝⦄ recordStrategySuccess cfg ⦃kept cfg g⦄ :=
+  keep_of_foot_spec cfg (fun w0 => recordStrategySuccess_foot inertK w0 rfl cfg) g
+
+theorem stratRecordFailure_k (key : SKey) (k : EClass) :
+    ⦃fun w => ⌜snap cfg w = g⌝⦄ stratRecordFailure cfg key k ⦃kept cfg g⦄ :=
+  keep_of_foot_spec cfg (fun w0 => stratRecordFailure_foot inertK w0 rfl cfg key k) g
+
+theorem callStrategy_k (key : SKey) (kind : SKind) (ctx : BackoffCtx) :
+    ⦃fun w => ⌜snap cfg w = g⌝⦄ callStrategy key kind ctx ⦃kept cfg g⦄ :=
+  keep_of_foot_spec cfg (fun w0 => callStrategy_foot inertK w0 rfl key kind ctx) g
+
+theorem callClassifier_k (e : Exn) : ⦃fun w => ⌜snap cfg w = g⌝⦄ callClassifier e ⦃kept cfg g⦄ :=
+  keep_of_foot_spec cfg (fun w0 => callClassifier_foot inertK w0 rfl e) g
+
+theorem callAttemptStart_k (a : Nat) : ⦃fun w => ⌜snap cfg w = g⌝⦄ callAttemptStart cfg a ⦃kept cfg g⦄ :=
+  keep_of_foot_spec cfg (fun w0 => callAttemptStart_foot inertK w0 rfl cfg a) g
+
+theorem callAttemptEndFromOutcome_k (a : Nat) (o : AOutcome) :
+    ⦃fun w => ⌜snap cfg w = g⌝⦄ callAttemptEndFromOutcome cfg a o ⦃kept cfg g⦄ :=
+  keep_of_foot_spec cfg (fun w0 => callAttemptEndFromOutcome_foot inertK w0 rfl cfg a o) g
+
+theorem callBeforeSleep_k (ctx : BackoffCtx) (s : Nat) :
+    ⦃fun w => ⌜snap cfg w = g⌝⦄ callBeforeSleep cfg ctx s ⦃kept cfg g⦄ :=
+  keep_of_foot_spec cfg (fun w0 => callBeforeSleep_foot inertK w0 rfl cfg ctx s) g
+
+theorem callSleepHandler_k (lvl : Lvl) (ctx : BackoffCtx) (s : Nat) :
+    ⦃fun w => ⌜snap cfg w = g⌝⦄ callSleepHandler lvl ctx s ⦃kept cfg g⦄ :=
+  keep_of_foot_spec cfg (fun w0 => callSleepHandler_foot inertK w0 rfl lvl ctx s) g
+
+theorem buildOutcome_k (ok : Bool) (value : Option Nat) (n : Nat) (ns : Option Nat) :
+    ⦃fun w => ⌜snap cfg w = g⌝⦄ buildOutcome ok value n ns ⦃kept cfg g⦄ :=
+  keep_of_foot_spec cfg (fun w0 => buildOutcome_foot inertK w0 ok value n ns) g
+
+theorem emitAbortedOnce_k (a : Nat) : ⦃fun w => ⌜snap cfg w = g⌝⦄ emitAbortedOnce cfg tl a ⦃kept cfg g⦄ :=
+  keep_of_foot_spec cfg (fun w0 => emitAbortedOnce_foot inertK w0 rfl rfl cfg tl a) g
+
+theorem abortOutcome_k (a : Nat) : ⦃fun w => ⌜snap cfg w = g⌝⦄ abortOutcome cfg tl a ⦃kept cfg g⦄ :=
+  keep_of_foot_spec cfg (fun w0 => abortOutcome_foot inertK w0 rfl rfl cfg tl a) g
+
+theorem handleSleepDecision_k (act : SleepDecision) (a s : Nat) :
+    ⦃fun w => ⌜snap cfg w = g⌝⦄ handleSleepDecision cfg tl act a s
+    ⦃post⟨fun r w => ⌜(r = act ∧ act ≠ .other) ∧ Keep g (snap cfg w)⌝, fun _ w => ⌜Keep g (snap cfg w)⌝⟩⦄ :=
+  keep_of_foot_spec' cfg (fun w0 => handleSleepDecision_foot inertK w0 rfl rfl cfg tl act a s) g
+
+theorem handleSuccessAttemptEnd_k (a x : Nat) :
+    ⦃fun w => ⌜snap cfg w = g⌝⦄ handleSuccessAttemptEnd cfg tl a x ⦃kept cfg g⦄ :=
+  keep_of_foot_spec cfg (fun w0 => handleSuccessAttemptEnd_foot inertK w0 rfl rfl rfl rfl cfg tl a x) g
+
+theorem handleAbortAttemptEnd_k (a : Nat) (e : Exn) :
+    ⦃fun w => ⌜snap cfg w = g⌝⦄ handleAbortAttemptEnd cfg a e ⦃kept cfg g⦄ :=
+  keep_of_foot_spec cfg (fun w0 => handleAbortAttemptEnd_foot inertK w0 rfl cfg a e) g
+
+theorem raiseExhaustedCall_k : ⦃fun w => ⌜snap cfg w = g⌝⦄ raiseExhaustedCall cfg ⦃kept cfg g⦄ :=
+  keep_of_foot_spec cfg (fun w0 => raiseExhaustedCall_foot inertK w0 rfl rfl cfg) g
+
+theorem buildExhaustedOutcome_k : ⦃fun w => ⌜snap cfg w = g⌝⦄ buildExhaustedOutcome cfg tl ⦃kept cfg g⦄ :=
+  keep_of_foot_spec cfg (fun w0 => buildExhaustedOutcome_foot inertK w0 rfl rfl cfg tl) g
+
+theorem deliverCall_k (act : Action) (orig : Option Exn) (fb : ExhaustedFields) :
+    ⦃fun w => ⌜snap cfg w = g⌝⦄ deliverCall act orig fb
+    ⦃post⟨fun r w => ⌜(r = none ∧ act = .continue_) ∧ Keep g (snap cfg w)⌝, fun _ w => ⌜Keep g (snap cfg w)⌝⟩⦄ :=
+  keep_of_foot_spec' cfg (fun w0 => deliverCall_foot inertK w0 act orig fb) g
+
+theorem deliverExecute_k (act : Action) (o : AOutcome) :
+    ⦃fun w => ⌜snap cfg w = g⌝⦄ deliverExecute cfg tl act o
+    ⦃post⟨fun r w => ⌜(r = none → act = .continue_) ∧ Keep g (snap cfg w)⌝, fun _ w => ⌜Keep g (snap cfg w)⌝⟩⦄ :=
+  keep_of_foot_spec' cfg (fun w0 => deliverExecute_foot inertK w0 rfl rfl cfg tl act o) g
+
+theorem budgetConsume_k : ⦃fun w => ⌜snap cfg w = g⌝⦄ budgetConsume cfg ⦃kept cfg g⦄ := by
+  have hf : ∀ w0, ⦃fun w => ⌜Foot inertK w0 w⌝⦄ budgetConsume cfg ⦃footPost inertK w0⦄ := by
+    intro w0
+    mvcgen [budgetConsume]
+    all_goals (try assumption)
+    all_goals (rename_i h; exact Foot.trans h (Foot.internal _ _ _ _ _ _ rfl))
+  exact keep_of_foot_spec cfg hf g
+
+end leaves
+
+attribute [local spec] emit_k setStop_k checkAbort_k stopWith_k recordStrategySuccess_k
+  stratRecordFailure_k callStrategy_k callClassifier_k callAttemptStart_k callAttemptEndFromOutcome_k
+  callBeforeSleep_k callSleepHandler_k buildOutcome_k emitAbortedOnce_k abortOutcome_k handleSleepDecision_k
+  handleSuccessAttemptEnd_k handleAbortAttemptEnd_k raiseExhaustedCall_k buildExhaustedOutcome_k
+  deliverCall_k deliverExecute_k budgetConsume_k
+
+/-! ### the invariants (each guarded by "the log so far is quiet") -/
+
+/-- the monitor's clock is not ahead of the run's own (`elapsed()`); nothing is wrong yet; with an
+    honest sleeper the requested sleep so far is covered by elapsed time and by the deadline -/
+structure CoreS (cfg : Cfg) (g : Snap) : Prop where
+  clock : g.start + g.mon.now ≤ g.now
+  bad : g.mon.bad = false
+  slept : g.honest → g.mon.slept ≤ g.mon.now
+  total : g.honest → g.mon.slept ≤ cfg.deadline
+
+/-- at the top of the loop: no late failure pending; a further attempt starts within the deadline -/
+def TopS (cfg : Cfg) (g : Snap) : Prop :=
+  g.quiet → CoreS cfg g ∧ g.mon.late = false ∧ (1 ≤ g.mon.ops → g.mon.now ≤ cfg.deadline)
+
+/-- inside an attempt: a failure seen late really was late -/
+def MidS (cfg : Cfg) (g : Snap) : Prop :=
+  g.quiet → CoreS cfg g ∧ (g.mon.late = true → cfg.deadline ≤ g.mon.now)
+
+/-- after a retry was granted with backoff `s` -/
+def GrantS (cfg : Cfg) (s : Nat) (g : Snap) : Prop :=
+  g.quiet → CoreS cfg g ∧ g.mon.late = false ∧ g.mon.now + s ≤ cfg.deadline
+
+/-- after the sleep -/
+def SleptS (cfg : Cfg) (g : Snap) : Prop :=
+  g.quiet → CoreS cfg g ∧ g.mon.late = false
+
+/-- what the verdict asks -/
+def FinS (cfg : Cfg) (g : Snap) : Prop :=
+  g.quiet → g.mon.bad = false ∧ (g.honest → g.mon.slept ≤ cfg.deadline)
+
+abbrev TopW (cfg : Cfg) (w : World) : Prop := TopS cfg (snap cfg w)
+abbrev MidW (cfg : Cfg) (w : World) : Prop := MidS cfg (snap cfg w)
+abbrev GrantW (cfg : Cfg) (s : Nat) (w : World) : Prop := GrantS cfg s (snap cfg w)
+abbrev SleptW (cfg : Cfg) (w : World) : Prop := SleptS cfg (snap cfg w)
+abbrev FinW (cfg : Cfg) (w : World) : Prop := FinS cfg (snap cfg w)
+
+theorem coreS_iff {cfg : Cfg} {g : Snap} : CoreS cfg g ↔
+    g.start + g.mon.now ≤ g.now ∧ g.mon.bad = false ∧
+    (g.honest → g.mon.slept ≤ g.mon.now) ∧ (g.honest → g.mon.slept ≤ cfg.deadline) :=
+  ⟨fun h => ⟨h.clock, h.bad, h.slept, h.total⟩, fun h => ⟨h.1, h.2.1, h.2.2.1, h.2.2.2⟩⟩
+
+theorem CoreS.keep {cfg : Cfg} {g g' : Snap} (k : Keep g g') (hq : g'.quiet) (h : CoreS cfg g) : CoreS cfg g' := by
+  obtain ⟨q, hm, hs, hn⟩ := k.quiet hq
+  refine ⟨by rw [hm, hs]; exact Nat.le_trans h.clock hn, hm ▸ h.bad, fun hh => ?_, fun hh => ?_⟩
+  · rw [hm]; exact h.slept (k.honest hh)
+  · rw [hm]; exact h.total (k.honest hh)
+
+/-! #### stability under inert steps, and the implications between the invariants -/
+
+theorem Keep.top {cfg : Cfg} {g g' : Snap} (k : Keep g g') (h : TopS cfg g) : TopS cfg g' := by
+  intro hq
+  obtain ⟨q, hm, hs, hn⟩ := k.quiet hq
+  obtain ⟨h1, h2, h3⟩ := h q
+  exact ⟨h1.keep k hq, hm ▸ h2, hm ▸ h3⟩
+
+theorem Keep.mid {cfg : Cfg} {g g' : Snap} (k : Keep g g') (h : MidS cfg g) : MidS cfg g' := by
+  intro hq
+  obtain ⟨q, hm, hs, hn⟩ := k.quiet hq
+  obtain ⟨h1, h2⟩ := h q
+  exact ⟨h1.keep k hq, hm ▸ h2⟩
+
+theorem Keep.grant {cfg : Cfg} {s : Nat} {g g' : Snap} (k : Keep g g') (h : GrantS cfg s g) :
+    GrantS cfg s g' := by
+  intro hq
+  obtain ⟨q, hm, hs, hn⟩ := k.quiet hq
+  obtain ⟨h1, h2, h3⟩ := h q
+  exact ⟨h1.keep k hq, hm ▸ h2, hm ▸ h3⟩
+
+theorem Keep.slept {cfg : Cfg} {g g' : Snap} (k : Keep g g') (h : SleptS cfg g) : SleptS cfg g' := by
+  intro hq
+  obtain ⟨q, hm, hs, hn⟩ := k.quiet hq
+  obtain ⟨h1, h2⟩ := h q
+  exact ⟨h1.keep k hq, hm ▸ h2⟩
+
+theorem Keep.fin {cfg : Cfg} {g g' : Snap} (k : Keep g g') (h : FinS cfg g) : FinS cfg g' := by
+  intro hq
+  obtain ⟨q, hm, hs, hn⟩ := k.quiet hq
+  obtain ⟨h1, h2⟩ := h q
+  exact ⟨hm ▸ h1, fun hh => hm ▸ h2 (k.honest hh)⟩
+
+theorem TopS.mid {cfg : Cfg} {g : Snap} (h : TopS cfg g) : MidS cfg g :=
+  fun hq => ⟨(h hq).1, fun hl => by simp [(h hq).2.1] at hl⟩
+
+theorem GrantS.mid {cfg : Cfg} {s : Nat} {g : Snap} (h : GrantS cfg s g) : MidS cfg g :=
+  fun hq => ⟨(h hq).1, fun hl => by simp [(h hq).2.1] at hl⟩
+
+theorem SleptS.mid {cfg : Cfg} {g : Snap} (h : SleptS cfg g) : MidS cfg g :=
+  fun hq => ⟨(h hq).1, fun hl => by simp [(h hq).2] at hl⟩
+
+theorem MidS.fin {cfg : Cfg} {g : Snap} (h : MidS cfg g) : FinS cfg g :=
+  fun hq => ⟨(h hq).1.bad, (h hq).1.total⟩
+
+theorem TopS.fin {cfg : Cfg} {g : Snap} (h : TopS cfg g) : FinS cfg g := h.mid.fin
+theorem GrantS.fin {cfg : Cfg} {s : Nat} {g : Snap} (h : GrantS cfg s g) : FinS cfg g := h.mid.fin
+theorem SleptS.fin {cfg : Cfg} {g : Snap} (h : SleptS cfg g) : FinS cfg g := h.mid.fin
+
+/-! #### the three places where the deadline is consulted -/
+
+/-- `remaining = deadline − elapsed` with `elapsed < deadline`: a backoff of up to `remaining` fits,
+    and the failure being handled was not late -/
+theorem MidS.grant {cfg : Cfg} {q hh : Prop} {m : St} {st n : Nat} (h : MidS cfg ⟨q, hh, m, st, n⟩)
+    (hd : ¬ cfg.deadline ≤ n - st) : GrantS cfg (cfg.deadline - (n - st)) ⟨q, hh, m, st, n⟩ := by
+  intro hq
+  obtain ⟨h1, h2⟩ := h hq
+  have hc : st + m.now ≤ n := h1.clock
+  refine ⟨h1, ?_, by show m.now + _ ≤ _; omega⟩
+  show m.late = false
+  cases hl : m.late with
+  | false => rfl
+  | true => have : cfg.deadline ≤ m.now := h2 hl; omega
+
+/-- `min(sleep, remaining)` -/
+theorem GrantS.le {cfg : Cfg} {s s' : Nat} {g : Snap} (h : GrantS cfg s g) (hs : s' ≤ s) : GrantS cfg s' g := by
+  intro hq
+  obtain ⟨h1, h2, h3⟩ := h hq
+  exact ⟨h1, h2, by omega⟩
+
+/-- the post-sleep check `elapsed ≤ deadline` lets the next attempt start within the deadline -/
+theorem SleptS.top {cfg : Cfg} {q hh : Prop} {m : St} {st n : Nat} (h : SleptS cfg ⟨q, hh, m, st, n⟩)
+    (hd : ¬ n - st > cfg.deadline) : TopS cfg ⟨q, hh, m, st, n⟩ := by
+  intro hq
+  obtain ⟨h1, h2⟩ := h hq
+  have hc : st + m.now ≤ n := h1.clock
+  exact ⟨h1, h2, fun _ => by show m.now ≤ _; omega⟩
+
+@[simp] theorem quietTr_cons (x : Req × Ans) (t : List (Req × Ans)) :
+    QuietTr (x :: t) ↔ (isOp x.1 = true ∨ isSleeper x.1 = true ∨ x.2.dur = 0) ∧ QuietTr t := by
+  simp [QuietTr]
+
+@[simp] theorem honestTr_cons (x : Req × Ans) (t : List (Req × Ans)) :
+    HonestTr (x :: t) ↔ HonestX x ∧ HonestTr t := by
+  simp [HonestTr]
+
+/-! ### the three requests that move the monitor -/
+
+theorem invokeOp_spec (cfg : Cfg) (a : Nat) :
+    ⦃fun w => ⌜TopW cfg w⌝⦄ invokeOp a
+    ⦃post⟨fun _ w => ⌜MidW cfg w⌝, fun _ w => ⌜MidW cfg w⌝⟩⦄ := by
+  mvcgen [invokeOp, ask]
+  all_goals ((try subst_vars) <;> (try intros) <;> (try simp only [TopS, MidS, coreS_iff, snap] at *))
+  all_goals simp_all +zetaDelta [step, isOp, isSleeper, HonestX, Ans.dur]
+  all_goals grind
+
+theorem shouldClassifyResult_spec (cfg : Cfg) (x : Nat) :
+    ⦃fun w => ⌜MidW cfg w⌝⦄ shouldClassifyResult cfg x
+    ⦃post⟨fun _ w => ⌜MidW cfg w⌝, fun _ w => ⌜MidW cfg w⌝⟩⦄ := by
+  mvcgen [shouldClassifyResult, ask]
+  all_goals ((try subst_vars) <;> (try intros) <;> (try simp only [TopS, MidS, coreS_iff, snap] at *))
+  all_goals simp_all +zetaDelta [step, isOp, isSleeper, HonestX, Ans.dur]
+  all_goals grind
+
+theorem callSleeper_spec (cfg : Cfg) (s : Nat) :
+    ⦃fun w => ⌜GrantW cfg s w⌝⦄ callSleeper cfg s
+    ⦃post⟨fun _ w => ⌜SleptW cfg w⌝, fun _ w => ⌜FinW cfg w⌝⟩⦄ := by
+  mvcgen [callSleeper, ask]
+  all_goals ((try subst_vars) <;> (try intros) <;> (try simp only [GrantS, SleptS, FinS, coreS_iff, snap] at *))
+  all_goals simp_all +zetaDelta [step, isOp, isSleeper, HonestX, Ans.dur]
+  all_goals grind
+
+attribute [local spec] invokeOp_spec shouldClassifyResult_spec callSleeper_spec
+
+theorem sanitize_le (out : SOut) (rem : Nat) : sanitize out rem ≤ rem := by
+  unfold sanitize
+  split
+  · split
+    · exact Nat.zero_le _
+    · exact Nat.min_le_right _ _
+  · exact Nat.zero_le _
+
+/-- unfold snapshots to tuples (so that worlds that differ in irrelevant fields coincide), keep the
+    invariants opaque, and chain the stability lemmas -/
+macro "c02" : tactic => `(tactic| all_goals (
+  (try subst_vars) <;> (try intros) <;>
+  (try simp +zetaDelta only [TopW, MidW, GrantW, SleptW, FinW, snap] at *) <;>
+  first
+    | (simp_all +zetaDelta; done)
+    | grind [Keep.top, Keep.mid, Keep.grant, Keep.slept, Keep.fin, TopS.mid, GrantS.mid, SleptS.mid, MidS.fin,
+        TopS.fin, GrantS.fin, SleptS.fin, MidS.grant, GrantS.le, SleptS.top, sanitize_le]
+    | skip))
+
+/-- what a failure decision promises: a granted retry comes with a backoff that fits -/
+abbrev decPost (cfg : Cfg) : PostCond Decision (.except Exn (.arg World .pure)) :=
+  post⟨fun d w => ⌜MidW cfg w ∧ ∀ s ctx, d = .retry s ctx → GrantW cfg s w⌝, fun _ w => ⌜MidW cfg w⌝⟩
+
+theorem grantRetry_spec (cfg : Cfg) (tl : Bool) (c : Classification) (a : Nat) (cause : Cause)
+    (e : Option Exn) (key : SKey) (kind : SKind) (rem : Nat) :
+    ⦃fun w => ⌜GrantW cfg rem w⌝⦄ grantRetry cfg tl c a cause e key kind rem ⦃decPost cfg⦄ := by
+  mvcgen [grantRetry, getRS, modifyRS]
+  c02
+
+attribute [local spec] grantRetry_spec
+
+theorem handleFailure2_spec (cfg : Cfg) (tl : Bool) (c : Classification) (a : Nat) (cause : Cause)
+    (e : Option Exn) :
+    ⦃fun w => ⌜MidW cfg w⌝⦄ handleFailure2 cfg tl c a cause e ⦃decPost cfg⦄ := by
+  mvcgen [handleFailure2, elapsed, modifyRS]
+  c02
+
+attribute [local spec] handleFailure2_spec
+
+theorem handleUnknown_spec (cfg : Cfg) (tl : Bool) (c : Classification) (a : Nat) (cause : Cause)
+    (e : Option Exn) :
+    ⦃fun w => ⌜MidW cfg w⌝⦄ handleUnknown cfg tl c a cause e ⦃decPost cfg⦄ := by
+  mvcgen [handleUnknown, getRS, modifyRS]
+  c02
+
+attribute [local spec] handleUnknown_spec
+
+theorem handleFailure1_spec (cfg : Cfg) (tl : Bool) (c : Classification) (a : Nat) (cause : Cause)
+    (e : Option Exn) :
+    ⦃fun w => ⌜MidW cfg w⌝⦄ handleFailure1 cfg tl c a cause e ⦃decPost cfg⦄ := by
+  mvcgen [handleFailure1, getRS]
+  c02
+
+attribute [local spec] handleFailure1_spec
+
+theorem handleFailure_spec (cfg : Cfg) (tl : Bool) (c : Classification) (a : Nat) (cause : Cause)
+    (e : Option Exn) (r : Option Nat) :
+    ⦃fun w => ⌜MidW cfg w⌝⦄ handleFailure cfg tl c a cause e r ⦃decPost cfg⦄ := by
+  mvcgen [handleFailure, Retry.recordFailure, modifyRS]
+  c02
+
+attribute [local spec] handleFailure_spec
+
+theorem handleException_spec (cfg : Cfg) (tl : Bool) (e : Exn) (a : Nat) :
+    ⦃fun w => ⌜MidW cfg w⌝⦄ handleException cfg tl e a ⦃decPost cfg⦄ := by
+  mvcgen [handleException]
+  c02
+
+attribute [local spec] handleException_spec
+
+
 end Redress.Props.C02
